@@ -482,6 +482,8 @@ where
     pub fn clear(&mut self) {
         self.bulk.clear();
         self.state = RangeCoderState::default();
+        // Forget any words that are still being held back for a pending carry.
+        self.situation = EncoderSituation::Normal;
     }
 
     /// Assembles the current compressed data into a single slice.
